@@ -492,26 +492,17 @@ def check(ctx):
         ctx.floor("R4", "writes of the ping evidence", n_w, 2)
 
     # ---- R5 -------------------------------------------------------------------
+    # wait_for_response on a model queue with a model clock (vlib/handlermodel.py): when an attempt ends and what its
+    # result means, for an own reply, a foreign datagram, an empty queue, a late reply, churning foreign traffic and a
+    # zero timeout; the expiry test itself (age > timeout) is the handler life-cycle model's (C20.R? / loop_obligations)
+    from ..handlermodel import wait_model
     w = repo.own_method(BASE, "wait_for_response")
+    wait_model(ctx, repo, "R5", "R5")
     gw = cfg_of(w)
-    asserts = [n for n in gw.stmt_nodes() if isinstance(n.ast, ast.Assert) and "_timeout_in_seconds > 0" in ast.unparse(n.ast.test)]
     heads = loop_heads(gw)
-    ok = bool(asserts) and all(gw.dom(asserts[0], h) for h in heads)
-    ctx.ob("R5", f"{w.qual}::positive-timeout", ok, f"{w.qual} does not require a positive timeout before polling (would never time out)", w.loc)
     for h in heads:
         avoid = [x for x in gw.loop_body(h) if x.suspends]
         ctx.ob("R5", f"{w.qual}::yields", h not in gw.reach_from(h, avoid=avoid), f"{w.qual}: polling loop has an iteration without a suspension point", w.loc)
-    # the attempt's clock restarts only when THIS request's reply was taken: a restart on any other path
-    # (foreign datagram at the head, empty poll) lets unrelated traffic postpone the timeout for ever
-    rs = calls_named(gw, "_reset_timeout")
-    for n_, c_ in rs:
-        own = any(p_ and "can_handle(" in t_ for t_, p_ in gw.guard_atoms(n_))
-        ctx.ob("R5", f"{w.qual}::timeout-restarts-only-on-own-reply", own,
-               f"{w.qual}: `_reset_timeout()` (L{n_.lineno}) runs on a path where this handler did not accept the datagram (guards {sorted(gw.guard_atoms(n_))}): while other traffic keeps arriving the attempt never times out, so `get` neither retransmits nor fails and keeps the request lock",
-               loc(w, n_.ast))
-    ht = repo.own_method(BASE, "has_timedout")
-    t = ast.unparse(ht.node)
-    ctx.ob("R5", f"{ht.qual}::age-vs-timeout", "self.age > self._timeout_in_seconds" in t, f"{ht.qual} no longer compares age with the timeout", ht.loc)
     nb = 0
     # every request builder arms the timeout wait_for_response relies on: the request is built by interpretation and asked
     # when it times out (vlib/handlermodel.builder_armed) - whichever way the keyword reaches the constructor
